@@ -132,10 +132,13 @@ func c15Enumerate(tier string, emit func(*eng.Case)) {
 
 func normWS(s string) string { return strings.Join(strings.Fields(s), " ") }
 
+func c15Render(c *eng.Case) string {
+	return c15Doc(c.Get("title"), c.Get("h1"), c.Get("h2"), c.Get("markup"))
+}
+
 func c15Check(c *eng.Case) *eng.Outcome {
 	o := &eng.Outcome{}
-	title := c.Get("title")
-	c.HTML = c15Doc(title, c.Get("h1"), c.Get("h2"), c.Get("markup"))
+	c.HTML = c15Render(c)
 	a := analyse(c, o)
 	if a == nil {
 		return o
